@@ -20,7 +20,14 @@ EXTRA = "zz_other"
 def snapshot(obj):
     vo = {f: [encs(list(g)), [[enc(k), encs(v)] for k, v in g.content.items()]] for f, g in obj.values_orders.items()}
     lpv = {f: [[enc(k), enc(l)] for k, l in d.items()] for f, d in obj.labels_per_values.items()}
-    js = json.dumps(obj.to_json(), sort_keys=True, default=str)
+    tj = obj.to_json()
+    if isinstance(tj.get("_history"), dict):
+        # history() adds a "feature" key to the stored records (not a change of the fitted state): ignored
+        tj = dict(tj)
+        tj["_history"] = {f: [{k: v for k, v in r.items() if k != "feature"} if isinstance(r, dict) else r
+                              for r in rs] if isinstance(rs, list) else rs
+                          for f, rs in tj["_history"].items()}
+    js = json.dumps(tj, sort_keys=True, default=str)
     return json.dumps([vo, lpv, js, sorted(obj.features)], sort_keys=True)
 
 
@@ -96,7 +103,11 @@ class C07(Prop):
 
         def fresh():
             X = B.build_frame(case)
-            X[EXTRA] = [f"r{i % 7}" for i in range(n)]
+            # a non-feature column that happens to hold the sentinel tokens, and a numeric one with missing
+            # cells and small integers (the values labels are made of): neither may be touched
+            toks = ["r0", "__NAN__", "__OTHER__", "MISSING", "RARE", "r5", "nan"]
+            X[EXTRA] = [toks[i % 7] for i in range(n)]
+            X[EXTRA + "_num"] = [float("nan") if i % 5 == 2 else float(i % 3) for i in range(n)]
             return X, pd.Series(case["y"])
 
         def fit(obj_case, how):
@@ -138,8 +149,9 @@ class C07(Prop):
             out["issues"].append("transform modified the caller's X although copy=True")
         if list(full.index) != list(X0.index) or list(full.columns) != list(X0.columns):
             out["issues"].append("transform does not keep X's index and columns")
-        if not bool((full[EXTRA] == X0[EXTRA]).all()):
-            out["issues"].append("non-feature column changed by transform")
+        for ex in (EXTRA, EXTRA + "_num"):
+            if not bool(((full[ex] == X0[ex]) | (full[ex].isna() & X0[ex].isna())).all()):
+                out["issues"].append(f"non-feature column {ex} changed by transform")
         dropped = [f["name"] for f in case["features"] if f["name"] not in obj.features]
         for d in dropped:
             if not bool(((full[d] == X0[d]) | (full[d].isna() & X0[d].isna())).all()):
@@ -151,7 +163,7 @@ class C07(Prop):
             obj2, ft, ft_untouched = fit(case, "fit_transform")
             if not ft_untouched:
                 out["issues"].append("fit_transform modified the caller's inputs although copy=True")
-            for f in names + [EXTRA]:
+            for f in names + [EXTRA, EXTRA + "_num"]:
                 a, b = ft[f], full[f]
                 if not bool(((a == b) | (a.isna() & b.isna())).all()):
                     out["issues"].append(f"fit_transform(X, y)[{f}] differs from fit(X, y).transform(X)[{f}]")
@@ -160,6 +172,14 @@ class C07(Prop):
             out["issues"].append(f"fit_transform raised {type(e).__name__}: {str(e)[:100]} while fit+transform works")
         # the history
         for k, op in enumerate(case["ops"]):
+            if k % 2 == 1:
+                # read-only queries between two transforms
+                try:
+                    obj.summary()
+                    if getattr(obj, "_history", None) is not None:
+                        obj.history()
+                except Exception as e:  # noqa: BLE001
+                    out["issues"].append(f"summary()/history() raised {type(e).__name__} on a fitted object")
             Xs, _ = fresh()
             sel = op["sel"]
             Xo = Xs.iloc[sel].copy()
@@ -183,7 +203,7 @@ class C07(Prop):
             if list(r.index) != list(Xo0.index) or list(r.columns) != list(Xo0.columns):
                 out["issues"].append(f"op {k} {op['kind']}: output does not keep the index/columns")
             exp = full.iloc[sel]
-            for f in names + [EXTRA]:
+            for f in names + [EXTRA, EXTRA + "_num"]:
                 a, b = list(r[f]), list(exp[f])
                 if [key(enc(x)) for x in a] != [key(enc(x)) for x in b]:
                     out["issues"].append(f"op {k} {op['kind']}: rows of feature {f} differ from the corresponding "
